@@ -203,6 +203,8 @@ class Shadow:
                 S[z(0)].append(a[1])
             elif op == "s_appint":
                 S[z(0)].append(str(z(1)))
+            elif op == "s_appdbl":
+                S[z(0)].append("%f" % float(a[1]))
             elif op == "s_set":
                 S[z(0)][z(1)] = a[2]
             elif op == "s_extend":
@@ -511,11 +513,13 @@ def gen_history(rng, length, kinds):
             elif lv:
                 k = rng.choice(lv)
                 n = len(sh.S[k])
-                o = rng.choice(("append", "append", "appint", "set", "extend", "del"))
+                o = rng.choice(("append", "append", "appint", "appdbl", "set", "extend", "del"))
                 if o == "append":
                     t = ["s_append", k, rng.choice(words)]
                 elif o == "appint":
                     t = ["s_appint", k, rng.randint(-5, 500)]
+                elif o == "appdbl":   # any double: the text of a large one is hundreds of characters long
+                    t = ["s_appdbl", k, rng.choice((0.5, -12.125, 1e-6, 1e6, 1e24, 9.9e55, 1e57, -3.5e120, 1e300, 123456789.0))]
                 elif o == "set" and n > 0:
                     t = ["s_set", k, rng.randint(0, n - 1), rng.choice(words)]
                 elif o == "extend" and em:
@@ -690,6 +694,11 @@ def run(ck, rng, tier):
         kinds = rng.choice((["dv", "m"], ["dv", "ui", "m"], ["dv", "m"], ["dv", "ui", "m"], ["dv", "m", "t"], ["dv", "ui", "iv"], ["dv", "l", "m"], ["s", "dv"], ["dv", "ui", "iv", "m", "t", "l", "s"]))
         weights = kinds + (["m"] * 2 if "m" in kinds else []) + (["t"] * 2 if "t" in kinds else [])
         hs.append(gen_history(rng, rng.randint(5, 40), weights))
+    # every run: a matrix with rows but no columns gets columns shorter than / as long as / longer than its row count, and
+    # string vectors get the text of very large doubles
+    hs[0] = [["m_new", 0, 3, 0], ["dv_new", 1, 1], ["dv_set", 1, 0, 7.0], ["m_appcol", 0, 1], ["dv_new", 2, 0], ["m_new", 1, 3, 0], ["m_appcol", 1, 2],
+             ["m_new", 2, 2, 0], ["dv_new", 3, 4], ["dv_set", 3, 3, 2.5], ["m_appcol", 2, 3], ["m_get", 0, 0, 0], ["m_resize", 1, 2, 2]]
+    hs[1] = [["s_init", 0], ["s_appdbl", 0, 1e57], ["s_appdbl", 0, -3.5e120], ["s_appdbl", 0, 1e300], ["s_appdbl", 0, 0.25], ["s_new", 1, 2], ["s_extend", 0, 1, 2]]
     with ThreadPoolExecutor(max_workers=14) as ex:
         results = list(ex.map(lambda o: run_history(exe, o), hs))
     stats = {"sanitizer_reports": 0}
